@@ -195,6 +195,15 @@ func c13(c *Check) {
 
 	c.Rule("C13/fresh-decode-target", "a value decoded inside an iterator loop is decoded into a target allocated in that loop iteration (protobuf Unmarshal appends to repeated fields of a reused target, so a hoisted target accumulates the entries of earlier iterations into later ones)", 2)
 	freshDecodeRule(c, "C13/fresh-decode-target")
+	c.Rule("C13/export-loops-complete", "the collecting functions reachable from ExportGenesis (GetAll*, Export*) never return successfully from inside their collecting loop: every entry is exported, not only those before the first one that takes an early exit", 8)
+	var expFns []*ssa.Function
+	for f := range expReach {
+		if inScope(f) {
+			expFns = append(expFns, f)
+		}
+	}
+	sort.Slice(expFns, func(i, j int) bool { return funcName(expFns[i]) < funcName(expFns[j]) })
+	exportLoopsComplete(c, "C13/export-loops-complete", expFns)
 
 	c.Rule("C13/genesis-fields", "every field of each module GenesisState is populated by ExportGenesis and consumed by InitGenesis (rvesting From/InitReward are init-only funding instructions, audited)", 12)
 	genesisFields(c, "C13/genesis-fields", "x/xibc/types.GenesisState", "x/xibc.ExportGenesis", "x/xibc.InitGenesis", nil)
